@@ -27,7 +27,7 @@ RULE = (
 ASSUMPTIONS = ["a class target is replaced as a whole (reading 5); siblings are protected for method targets and at module level",
                "trees are compared through unparse/parse (positions and formatting are not content)"]
 CORE_ALLOWED = c09.CORE_ALLOWED
-FRONTIER_KNOBS = ("module_doc",)
+FRONTIER_KNOBS = ("module_doc", "rebound_functiondef")
 FLOORS = {"decoy": 0.2, "state=stale": 0.2, "state=absent": 0.15, "no_trailing_newline": 0.2}
 KEYS = project.KIND_KEYS
 
@@ -54,9 +54,9 @@ DECOYS = (
 
 @st.composite
 def _case(draw, knob):
-    target = draw(st.sampled_from(KEYS))
+    target = draw(st.sampled_from(KEYS if knob != "rebound_functiondef" else ("function", "argparse_function")))
     truth = draw(st.sampled_from([k for k in KEYS if k != target]))
-    method = target == "function" and draw(st.booleans())
+    method = target == "function" and knob != "rebound_functiondef" and draw(st.booleans())
     m = draw(progs.module(min_size=1, max_size=5, rebind=False))
     m["doc"] = "Module docstring." if knob == "module_doc" else None
     if draw(st.integers(0, 2)) == 0:
@@ -66,8 +66,13 @@ def _case(draw, knob):
         state = "stale"  # creating a method that does not exist is finding KF-N03 (C09), not this property's core
     trailing = draw(st.booleans())
     m["trailing_newline"] = trailing
+    pos = draw(st.integers(0, len(m["body"])))
+    if not method and state != "absent" and (knob == "rebound_functiondef" or (target == "class" and draw(st.integers(0, 2)) == 0)):
+        # a second binding of the target's name after the definition: `TargetClass = register(TargetClass)`
+        nm = project.NAMES[target]
+        m["body"].insert(draw(st.integers(pos, len(m["body"]))), {"k": "assign", "name": nm, "value": "register(%s)" % nm})
     return {"ir": draw(c09._ir()), "stale_ir": draw(c09._ir()), "truth": truth, "target": target, "method": method, "module": m,
-            "pos": draw(st.integers(0, len(m["body"]))), "state": state}
+            "pos": pos, "state": state}
 
 
 def strategy(mode, knob=None):
@@ -118,6 +123,10 @@ def run_case(case):
     decoy = any(n in names for n in project.NAMES.values())
     if decoy:
         tags.add("decoy")
+    if any(s_.get("k") == "assign" and s_.get("value", "").startswith("register(") for s_ in m["body"]):
+        tags.add("rebound")
+        if k != "class":
+            tags.add("rebound_functiondef")
     nontrivial = len(m["body"]) >= 3 and decoy
     d = tempfile.mkdtemp(prefix="c11_")
     discs = []
